@@ -98,6 +98,32 @@ func main() {
 		fmt.Fprintln(os.Stderr, "harness: no suite for", prop)
 		os.Exit(2)
 	}
+	for _, api := range apis() {
+		switch prop {
+		case "C02", "C05":
+			closureRendezvous(rep, prop, api, 4)
+		case "C11":
+			closureRendezvous(rep, prop, api, 40)
+		}
+		switch prop {
+		case "C01", "C11", "C12", "C13":
+			overlappingClosureCalls(rep, prop, api)
+		}
+		if prop == "C09" {
+			closureValueRows(rep, prop, jsonRaw(), api)
+			closureValueRows(rep, prop, cborRaw(), api)
+		}
+		if prop == "C04" {
+			c02ExpiredNestedCall(rep, prop, api)
+		}
+		if prop == "C10" || prop == "C17" {
+			panickingClosures(rep, prop, api, 6, false)
+			panickingClosures(rep, prop, api, 12, true)
+		}
+	}
+	if prop == "C13" {
+		twoLinksSameLiteral(rep, prop)
+	}
 	switch prop {
 	case "C01", "C10", "C11", "C17":
 		for _, api := range apis() {
